@@ -102,6 +102,34 @@ func genValidIetfPatch(t *rapid.T, cur map[string]interface{}, st *propStats) (m
 			flags["ietf-number-test"] = true
 		}
 	}
+	if rapid.IntRange(0, 7).Draw(t, "nullMember") == 0 {
+		// a member that exists and holds null is a value like any other: it can be tested, copied and moved
+		name := rapid.SampledFrom([]string{"nothing", "o", "name"}).Draw(t, "nullName")
+		var seq []map[string]interface{}
+		if rapid.Bool().Draw(t, "nullNested") {
+			seq = append(seq, map[string]interface{}{"op": "add", "path": "/" + name, "value": map[string]interface{}{"inner": nil, "list": []interface{}{nil, "x"}}})
+			name += "/inner"
+		} else {
+			seq = append(seq, map[string]interface{}{"op": "add", "path": "/" + name, "value": nil})
+		}
+		switch rapid.IntRange(0, 2).Draw(t, "nullUse") {
+		case 0:
+			seq = append(seq, map[string]interface{}{"op": "test", "path": "/" + name, "value": nil})
+		case 1:
+			seq = append(seq, map[string]interface{}{"op": "copy", "from": "/" + name, "path": "/copiedNull"})
+		default:
+			seq = append(seq, map[string]interface{}{"op": "move", "from": "/" + name, "path": "/movedNull"})
+		}
+		for _, op := range seq {
+			next, err := refPatch6902(work, op)
+			if err != nil {
+				break
+			}
+			ops = append(ops, op)
+			work = next
+			flags["ietf-null-member"] = true
+		}
+	}
 	if rapid.IntRange(0, 7).Draw(t, "prefixSibling") == 0 {
 		// a move / copy to a sibling whose pointer text merely begins with the text of 'from' (not a child of it)
 		name := rapid.SampledFrom([]string{"contact", "o", "tags"}).Draw(t, "siblingName")
@@ -320,6 +348,12 @@ func TestC10_Compose(t *testing.T) {
 		}
 		if g, w := docCanon(got), refJCS(normalizeDoc(ref)); g != w {
 			t.Fatalf("C10 composition differs from the per-action semantics\n doc=%s\n patches=%s\n got= %s\n want=%s", refJCS(start), refJCS(patches), g, w)
+		}
+		// the fold is a function of document and patches: the same patch values applied again (to the same start document,
+		// and as a list in which every patch of the list occurs twice where that is idempotent) give the same result
+		if again, err := composer.ApplyPatches(libDoc(start), lps); err != nil || docCanon(again) != docCanon(got) {
+			t.Fatalf("C10 applying the same patch values a second time gives another result (%v)\n doc=%s\n patches=%s\n first= %s\n second=%s",
+				err, refJCS(start), refJCS(patches), docCanon(got), docCanon(again))
 		}
 		if uniqueIDs(start["publicKey"]) && uniqueIDs(start["service"]) {
 			rt, _ := jsonRoundTrip(got)
